@@ -105,6 +105,17 @@ def const_name(v):
     return "c_" + s
 
 
+FLOAT_INSTANCE = {"ltb": "PrimFloat.ltb", "leb": "PrimFloat.leb", "eqb": "PrimFloat.eqb",
+                  "add": "PrimFloat.add", "sub": "PrimFloat.sub", "mul": "PrimFloat.mul", "div": "PrimFloat.div",
+                  "neg": "PrimFloat.opp", "absT": "PrimFloat.abs"}
+
+
+def float_literal(x):
+    """exact Coq PrimFloat literal (hexadecimal) of a finite Python float"""
+    h = float(x).hex()
+    return h
+
+
 IFACE_ORDER = ["ltb", "leb", "eqb", "add", "sub", "mul", "div", "neg", "absT"]
 IFACE_TYPE = {"ltb": "T -> T -> bool", "leb": "T -> T -> bool", "eqb": "T -> T -> bool",
               "add": "T -> T -> T", "sub": "T -> T -> T", "mul": "T -> T -> T", "div": "T -> T -> T",
@@ -989,6 +1000,21 @@ class FnTranslator:
         text = text.replace("(py_min ", "(%s_py_min " % self.base).replace("(py_max ", "(%s_py_max " % self.base)
         out.append(textwrap.indent(text, "  "))
         out.append("End %s_section." % self.base)
+        # the binary64 instance: every interface member and every literal is pinned here (the Section
+        # abstracts them positionally, so only this instance says WHICH comparison / constant is meant)
+        if any(t in ("T", ("list", "T"), "costvec") for _, t, _ in plist) or self.ret_type == "T" or self.iface():
+            inst, lam = [], []
+            for n, ty in self.iface():
+                if n in FLOAT_INSTANCE:
+                    inst.append(FLOAT_INSTANCE[n])
+                elif n.startswith("c_"):
+                    inst.append("(%s)%%float" % float_literal(dict(self.consts)[n]))
+                else:
+                    lam.append("(%s : %s)" % (n, ty.replace("T", "float")))
+                    inst.append(n)
+            out.append("(* binary64 instance of %s: Python's < <= == + - * / abs on floats are the IEEE-754 operations of\n"
+                       "   PrimFloat, literals are exact (hexadecimal); oracles stay parameters *)" % self.coq)
+            out.append("Definition %s_f %s := @%s float %s." % (self.coq, " ".join(lam), self.coq, " ".join(inst)))
         return "\n".join(out)
 
 
@@ -1070,7 +1096,7 @@ def translate_spec(repo, spec):
         done[qual] = ft
     head = ("(* GENERATED by tools/py2coq.py from %s - never edit, never commit.\n"
             "   Shallow Gallina definitions of: %s. *)\n"
-            "From Coq Require Import List ZArith Bool Arith.\nImport ListNotations.\n\n"
+            "From Coq Require Import List ZArith Bool Arith Floats.\nImport ListNotations.\n\n"
             % (spec["source"], ", ".join(i["function"] for i in info)))
     return head + "\n\n".join(parts) + "\n", info
 
